@@ -162,3 +162,5 @@ func (s *plySpec) encode(r *rand.Rand) (data []byte, headerLen, vertexEnd int) {
 	}
 	return b.Bytes(), headerLen, vertexEnd
 }
+
+func floatBits(v float64) uint32 { return math.Float32bits(float32(v)) }
